@@ -22,7 +22,7 @@ Definition fsub (l a b : Z) : Z := (a - b) mod l.
 Definition fmul (l a b : Z) : Z := (a * b) mod l.
 
 (* sum of a list of scalars / points, reduced *)
-Definition fsum (l : Z) (xs : list Z) : Z := fold_right (fun x acc => fadd l x acc) 0 xs.
+Definition fsum (l : Z) (xs : list Z) : Z := (fold_right Z.add 0 xs) mod l.
 
 Definition point_ok (l p : Z) : bool := (0 <? p) && (p <? l).
 Definition scalar_ok (l s : Z) : bool := (0 <=? s) && (s <? l).
@@ -33,14 +33,14 @@ Definition scalar_ok (l s : Z) : bool := (0 <=? s) && (s <? l).
 Fixpoint be_bytes (n : nat) (v : N) : list N :=
   match n with
   | O => []
-  | S n' => be_bytes n' (v / 256)%N ++ [(v mod 256)%N]
+  | S n' => be_bytes n' (N.shiftr v 8) ++ [N.land v 255]
   end.
 
 (* little-endian, exactly n bytes *)
 Fixpoint le_bytes (n : nat) (v : N) : list N :=
   match n with
   | O => []
-  | S n' => (v mod 256)%N :: le_bytes n' (v / 256)%N
+  | S n' => N.land v 255 :: le_bytes n' (N.shiftr v 8)
   end.
 
 (* a 32-byte key / hash / point encoding carried as one N (big-endian value) *)
